@@ -11,7 +11,8 @@ RULE = ("readers R in 1..3 (real threads running the real SharedDictDataset.__ge
         "payload types int / (bytes,int) / tensor / dict / list, post-cache transform none / pure / in-place; every schedule at "
         "shared-dict-operation granularity with preemption bound 0,1,2,... (unbounded where the count allows); sequential "
         "histories (no concurrency, readers take turns): all sequences of (reader, op) with op in {get0, get1, get(-1), [one reader: "
-        "get(-2), out-of-range get(2), get(-3)], clear, release = the "
+        "get(-2), out-of-range get(2), get(-3), a dataloader batch fetch over (0,1) / (1,1) through torch's map-style fetcher], clear, "
+        "release = the "
         "reader object is garbage collected} of length <= 4 "
         "for 1 and 2 readers and <= 3 for 3 readers, with exact load accounting over all readers; readers are copies of ONE cache "
         "object (fork picture: deep copy - private attributes duplicated, manager dicts shared; spawn picture: pickle round trip; "
@@ -126,7 +127,11 @@ def make_transform(tkind, counter):
 
 
 class Base:
-    """The wrapped dataset: returns fresh objects (like a dataset that loads from disk) and counts loads."""
+    """The wrapped dataset: returns fresh objects (like a dataset that loads from disk) and counts loads. Like torch's Subset
+    (and KDSubset) it offers the batched fetch protocol __getitems__ that dataloaders prefer when a dataset has it."""
+
+    def __getitems__(self, idxs):
+        return [self[i] for i in idxs]
 
     def __init__(self, kind):
         self.kind = kind
@@ -304,6 +309,32 @@ def sequential_check(ops, kind, tkind, R=1):
                 gc.collect(0)
                 continue
             before = [len(x.dataset.loads) if x is not None else 0 for x in readers]
+            if isinstance(op, tuple) and op[0] == "fetch":
+                # what a torch DataLoader does for one batch of a map-style dataset
+                from torch.utils.data._utils.fetch import _MapDatasetFetcher
+                try:
+                    vals = _MapDatasetFetcher(r, True, list, False).fetch(list(op[1]))
+                except Exception as e:
+                    return f"access_raised:{type(e).__name__}", f"ops {ops} step {k}: {e!r}"
+                if len(vals) != len(op[1]) or any(not same(v, apply_expected(tkind, payload(kind, i % 2))) for v, i in zip(vals, op[1])):
+                    return "value_differs_from_wrapped_dataset", f"ops {ops} step {k}: a dataloader batch over indices {list(op[1])} gives {vals!r}"
+                loaded = r.dataset.loads[before[who]:]
+                exp_loads, spelled_loads = [], []
+                for i in op[1]:
+                    if i % 2 not in cached_samples:
+                        exp_loads.append(i)
+                    if i not in cached:
+                        spelled_loads.append(i)
+                    cached.add(i)
+                    cached_samples.add(i % 2)
+                if loaded != exp_loads:
+                    if loaded == spelled_loads:
+                        return "cached_sample_loaded_again|other_spelling_of_the_index", (
+                            f"ops {ops} step {k}: dataloader batch {list(op[1])} loaded {loaded}: a sample that was already loaded "
+                            f"under its other index spelling was loaded again")
+                    return ("cached_sample_loaded_again" if len(loaded) > len(exp_loads) else "uncached_sample_not_loaded_exactly_once"), \
+                        f"ops {ops} step {k}: dataloader batch {list(op[1])} loaded {loaded}, expected {exp_loads}"
+                continue
             if op == "clear":
                 try:
                     r.dispose()
@@ -412,7 +443,8 @@ def seq_task(args):
     kind, tkind = args
     p = Partial()
     for R, maxlen in ((1, 4), (2, 4), (3, 3)):
-        alphabet = [(who, op) for who in range(R) for op in ((0, 1, -1, "clear", "release") if R > 1 else (0, 1, -1, -2, 2, -3, "clear"))]
+        alphabet = [(who, op) for who in range(R) for op in ((0, 1, -1, "clear", "release", ("fetch", (0, 1))) if R > 1 else
+                                                              (0, 1, -1, -2, 2, -3, "clear", ("fetch", (0, 1)), ("fetch", (1, 1))))]
         for L in range(1, maxlen + 1):
             for ops in itertools.product(alphabet, repeat=L):
                 if R > 1 and len({w for w, _ in ops}) < 2:
@@ -427,9 +459,9 @@ def seq_task(args):
                         gone.add(w)
                 if not valid or (ops and ops[-1][1] == "release"):
                     continue  # a released reader cannot act; a release at the very end is unobservable
-                if R == 3 and any(o == -1 for _, o in ops):
+                if R == 3 and any(o == -1 or isinstance(o, tuple) for _, o in ops):
                     continue  # three readers: non-negative indices only (bounds the product)
-                for flaky in ((False, True) if (R <= 2 and kind in ("int", "list") and all(o in (0, 1, "clear", "release") for _, o in ops))
+                for flaky in ((False, True) if (R <= 2 and kind in ("int", "list") and all(o in (0, 1, "clear", "release") for _, o in ops if not isinstance(o, tuple)) and not any(isinstance(o, tuple) for _, o in ops))
                               else (False,)):
                   # readers that got their copy through pickle (spawn / forkserver) for two payload kinds and short histories
                   for how in (("deepcopy", "pickle") if (kind in ("int", "tensor") and L <= 3 and not flaky) else ("deepcopy",)):
@@ -522,7 +554,7 @@ def run(run):
 
 def replay(case):
     if case.get("sequential"):
-        ops = tuple((int(o[0]), o[1] if o[1] in ("clear", "release") else int(o[1])) if isinstance(o, (list, tuple)) else (0, o if o == "clear" else int(o))
+        ops = tuple((int(o[0]), o[1] if o[1] in ("clear", "release") else (("fetch", tuple(o[1][1])) if isinstance(o[1], (list, tuple)) else int(o[1]))) if isinstance(o, (list, tuple)) else (0, o if o == "clear" else int(o))
                     for o in case["ops"])
         FLAKY[0] = bool(case.get("flaky"))
         COPY_HOW[0] = case.get("how") or "deepcopy"
